@@ -152,7 +152,6 @@ class SqlalchemyRender:
             methods = {
                 "+": "__add__",
                 "-": "__sub__",
-                "/": "__truediv__",
                 "*": "__mul__",
                 "%": "__mod__",
                 "=": "__eq__",
@@ -196,8 +195,12 @@ class SqlalchemyRender:
 
             method = methods.get(op)
             if op == '+':
-                # sqlalchemy turns `+` over a string-typed operand into a concatenation (`||`, concat()): keep the operator that is written
-                col = arg0.op('+')(arg1)
+                # sqlalchemy turns `+` over a string-typed operand into a concatenation (`||`, concat()): keep the operator that is written;
+                # with the precedence of an addition, so that operands of lower precedence keep their brackets: (a = 1) + 1
+                col = arg0.op('+', precedence=7)(arg1)
+            elif op == '/':
+                # python's `/` of sqlalchemy elements is a true division (`a / (b + 0.0)`, `a / CAST(b AS NUMERIC)`): keep the operator that is written
+                col = arg0.op('/', precedence=8)(arg1)
             elif method is not None:
                 sa_op = getattr(arg0, method)
 
